@@ -1009,6 +1009,13 @@ class Interp:
             if a is b:
                 merged[name] = a
                 continue
+            # a parameter typed as an array on one branch only (typing is lazy): it is that array on both
+            if isinstance(a, Arr) and isinstance(b, tuple) and b[:1] == ('param',) and b[1] == a.name:
+                merged[name] = a
+                continue
+            if isinstance(b, Arr) and isinstance(a, tuple) and a[:1] == ('param',) and a[1] == b.name:
+                merged[name] = b
+                continue
             if isinstance(a, Rat) and isinstance(b, Rat):
                 merged[name] = a if a == b else Rat.atom(App('ite', [cond_arg(c), a, b]))
             elif _is_cond(a) and _is_cond(b):
